@@ -17,7 +17,10 @@ void harness(void) {
   /* url_search_params::to_string replaces every ' ' of the encoded text by '+' (the set leaves 0x20 unescaped) */
   for (unsigned i = 0; i < CAP; i++) if (i < el && enc[i] == ' ') enc[i] = '+';
 #endif
-  uint64_t dl = F_vk_form_decode(e2, el, dec, CAP, 0, 0);
+  /* case split on the encoded length: each call of the decoder sees a CONCRETE length (a symbolic length makes the
+     string code of the decoder explode: out of memory at N = 1) */
+  uint64_t dl = ~0ull;
+  for (unsigned k = N; k <= 3 * N; k++) if (el == k) dl = F_vk_form_decode(e2, k, dec, CAP, 0, 0);
 #else
   ASSUME(I.set < 6);
   for (unsigned i = 0; i < N; i++) ASSUME(in[i] != '%');
